@@ -1,3 +1,126 @@
 import Driver.Common
-/-! stub: replaced by the owner of this driver -/
-def main : IO Unit := Driver.run () (fun s _ => (s, "bad-op"))
+import ScionVerif.Model.ScmpHandler
+/-!
+line-protocol driver for the SCMP model (C14)
+
+```
+errpkt <kind> <dstIa> <srcIa> <dstNib> <srcNib> <dstHost> <srcHost> <pathType> <path> <offending>
+        kind = du:<code> | ptb:<mtu> | pp:<code>:<ptr> | eid:<ia>:<if> | icd:<ia>:<in>:<eg>
+     -> pkt <hex> | invalid                                  complete SCMP error packet (ScionScmpPacket::try_encode)
+echopkt <ty> <id> <seq> <data> <dstIa> <srcIa> <dstNib> <srcNib> <dstHost> <srcHost> <pathType> <path>
+     -> pkt <hex> | invalid                                  echo request (128) / reply (129) packet
+cksum <pkt>          -> ok | bad | undecodable               receiver-side checksum verification of an SCMP packet
+recv <handlers> <nrecv> <pkt> <rev>
+        handlers = comma list of error|echo ; rev = fail | <pathType>:<hex path>
+     -> undecodable | skip | udp <payload> <srcIa> <srcNib> <srcHost> <port> | drop
+      | scmp sent=<hex,..|-> reports=<n>x<report|->          what the socket loop does with one packet
+sim <action> <localIa> <localIf> <routerNib> <routerHost> <pkt> <rev> <offending|->
+        action = scmp | err:<kind>
+     -> reply <hex> | none | error | undecodable | invalid   pocketscion handle_scmp / SendSCMPErrorResponse
+const
+```
+-/
+open ScionVerif.Scmp ScionVerif.Generated.Scmp Driver
+
+def nat? (s : String) : Option Nat := s.toNat?
+
+def parseKind (s : String) : Option ErrKind :=
+  match s.splitOn ":" with
+  | ["du", c] => (nat? c).map .destUnreachable
+  | ["ptb", m] => (nat? m).map .packetTooBig
+  | ["pp", c, p] => do some (.paramProblem (← nat? c) (← nat? p))
+  | ["eid", ia, i] => do some (.extIfDown (← nat? ia) (← nat? i))
+  | ["icd", ia, i, e] => do some (.intConnDown (← nat? ia) (← nat? i) (← nat? e))
+  | _ => none
+
+def parseAddr (dIa sIa dN sN dH sH : String) : Option AddrHdr := do
+  some { dstIa := ← nat? dIa, srcIa := ← nat? sIa, dstNib := ← nat? dN, srcNib := ← nat? sN,
+         dstHost := ← parseHex dH, srcHost := ← parseHex sH }
+
+def parseRev (s : String) : Option Rev :=
+  if s == "fail" then some (fun _ _ => none) else
+  match s.splitOn ":" with
+  | [pt, h] => do
+    let t ← nat? pt
+    let b ← parseHex h
+    some (fun _ _ => some (t, b))
+  | _ => none
+
+def parseHandlers (s : String) : Option (List Handler) :=
+  if s == "-" then some [] else
+  (s.splitOn ",").mapM fun
+    | "error" => some Handler.error
+    | "echo" => some Handler.echo
+    | _ => none
+
+def kindStr : ErrKind → String
+  | .destUnreachable c => s!"du:{c}"
+  | .packetTooBig m => s!"ptb:{m}"
+  | .paramProblem c p => s!"pp:{c}:{p}"
+  | .extIfDown ia i => s!"eid:{ia}:{i % 65536}"
+  | .intConnDown ia i e => s!"icd:{ia}:{i % 65536}:{e % 65536}"
+
+def reportStr (r : Report) : String := s!"{kindStr r.kind}/{toHex r.quote}/{r.pathType}/{toHex r.path}"
+
+def hexList (l : List (List UInt8)) : String := if l.isEmpty then "-" else ",".intercalate (l.map toHex)
+
+def stepStr (nRecv : Nat) (p : Pkt) (st : Step) : String :=
+  if p.nextHdr = PROTO_UDP then
+    match st.delivered with
+    | some d => s!"udp {toHex d.payload} {d.srcIa} {d.srcNib} {toHex d.srcHost} {d.srcPort}"
+    | none => "drop"
+  else if p.nextHdr = PROTO_SCMP then
+    let rep := match st.reports with
+      | [] => "-"
+      | (_, r) :: _ => reportStr r
+    let uniform := st.reports.all (fun x => st.reports.head?.map (·.2) == some x.2) && st.reports.map (·.1) == List.range nRecv
+    s!"scmp sent={hexList st.sent} reports={if st.reports.isEmpty then 0 else if uniform then nRecv else 999999}x{rep}"
+  else "skip"
+
+def simStr : SimOut → String
+  | .reply r => match r.encode with
+    | some b => s!"reply {toHex b}"
+    | none => "invalid"
+  | .none => "none"
+  | .error => "error"
+
+def step (st : Unit) : List String → Unit × String
+  | ["errpkt", k, dIa, sIa, dN, sN, dH, sH, pt, path, off] =>
+    match parseKind k, parseAddr dIa sIa dN sN dH sH, nat? pt, parseHex path, parseHex off with
+    | some k, some a, some pt, some path, some off =>
+      (st, match errorPacket k off a pt path with | some b => s!"pkt {toHex b}" | none => "invalid")
+    | _, _, _, _, _ => (st, "bad-op")
+  | ["echopkt", ty, ident, seq, data, dIa, sIa, dN, sN, dH, sH, pt, path] =>
+    match nat? ty, nat? ident, nat? seq, parseHex data, parseAddr dIa sIa dN sN dH sH, nat? pt, parseHex path with
+    | some ty, some ident, some seq, some data, some a, some pt, some path =>
+      let r : RawPkt := { nextHdr := PROTO_SCMP, addr := a, pathType := pt, path := path, payload := echoMsg ty ident seq data a }
+      (st, match r.encode with | some b => s!"pkt {toHex b}" | none => "invalid")
+    | _, _, _, _, _, _, _ => (st, "bad-op")
+  | ["cksum", hx] => match parseHex hx with
+    | some b => (st, match parsePkt b with
+        | some p => if scmpChecksumOk p then "ok" else "bad"
+        | none => "undecodable")
+    | none => (st, "bad-op")
+  | ["recv", hs, n, hx, rv] => match parseHandlers hs, nat? n, parseHex hx, parseRev rv with
+    | some hs, some n, some b, some rev =>
+      (st, match parsePkt b with
+        | some p => stepStr n p (recvOne rev n hs p)
+        | none => "undecodable")
+    | _, _, _, _ => (st, "bad-op")
+  | ["sim", act, lia, lif, rn, rh, hx, rv, offHex] =>
+    match nat? lia, nat? lif, nat? rn, parseHex rh, parseHex hx, parseRev rv, parseHex offHex with
+    | some lia, some lif, some rn, some rh, some b, some rev, some off =>
+      match parsePkt b with
+      | none => (st, "undecodable")
+      | some p =>
+        if act == "scmp" then (st, simStr (simHandleScmp rev lia lif rn rh p))
+        else match act.splitOn ":" with
+          | "err" :: rest => match parseKind (":".intercalate rest) with
+            | some k => (st, simStr (simErrorReply rev lia rn rh k off p))
+            | none => (st, "bad-op")
+          | _ => (st, "bad-op")
+    | _, _, _, _, _, _, _ => (st, "bad-op")
+  | ["const"] => (st, s!"max {SCMP_ERROR_MAX_PACKET_SIZE} maxhdr {MAX_HEADER_SIZE} scmp {PROTO_SCMP} udp {PROTO_UDP} cover {CHECKSUM_COVERS_MESSAGE} verify {VERIFY_CHECKSUM_ON_RECEIVE} unknownerr {NO_REPLY_TO_UNKNOWN_ERROR}")
+  | _ => (st, "bad-op")
+
+def main : IO Unit := Driver.run () step
